@@ -136,7 +136,17 @@ class DequeSpec(SeqSpec):
                 prof.update(self.ITER_EXTRA)
                 prof.pop("iterate", None)
             nops = rng.choice([5, 12, 30, 60, 120]) if tier == "quick" else rng.choice([8, 30, 80, 200, 400])
-            cases.append({"component": "deque", "profile": pn, "ops": self.gen_one(rng, nops, prof)})
+            ops = self.gen_one(rng, nops, prof)
+            cfg = {}
+            if rng.random() < 0.3:
+                # run on Deque[any] where the value 0 is the nil interface: a quarter of the values become 0
+                cfg = {"inst": "any"}
+                for o in ops:
+                    if o[0] in ("pushfront", "pushback") and rng.random() < 0.25:
+                        o[1] = 0
+                    elif o[0] == "set" and rng.random() < 0.25:
+                        o[2] = 0
+            cases.append({"component": "deque", "profile": pn, "ops": ops, "cfg": cfg})
         return cases
 
     def coq_case(self, case, obs):
